@@ -562,6 +562,63 @@ def frozen_through_accessors(rep: Report, rng: random.Random):
                           f"{[a.tolist() for a in after]}")
 
 
+def frozen_inside_combinators(rep: Report, rng: random.Random):
+    """A component frozen BEFORE it is handed to a combinator's constructor stays frozen inside it: the constructor must keep
+    the wrapper (also on the vectorised-construction paths), so that training the composite leaves the component's leaves
+    bit-identical.  The frozen leaves are recognised by their (distinctive) values, not by a wrapper the constructor may
+    have dropped."""
+    from flowjax import bijections as bj
+    from flowjax import distributions as ds
+    from flowjax.train import fit_to_data
+    from flowjax.wrappers import non_trainable, unwrap
+    MARK = 7.0
+
+    def faff(shape, i=0):          # a frozen affine with recognisable values
+        n = int(np.prod(shape)) if shape else 1
+        loc = (MARK + 0.125 * (i + 1) + 0.0078125 * np.arange(n)).reshape(shape)
+        return non_trainable(bj.Affine(jnp.asarray(loc), jnp.asarray(loc - 5.0)))
+
+    def stacked(n, shape):
+        locs = jnp.asarray(np.stack([MARK + 0.125 * (i + 1) + 0.0078125 * np.arange(int(np.prod(shape)) if shape else 1).reshape(shape) for i in range(n)]))
+        return eqx.filter_vmap(lambda l: non_trainable(bj.Affine(l, l - 5.0)))(locs)
+    scenarios = {
+        "Vmap(in_axes) of a frozen vectorised component": lambda: bj.Vmap(stacked(2, ()), in_axes=eqx.if_array(0)),
+        "Vmap(in_axes) over rows": lambda: bj.Chain([bj.Vmap(stacked(2, (1,)), in_axes=eqx.if_array(0)), bj.Reshape(bj.Affine(jnp.zeros(2)), (2, 1))]),
+        "Vmap(axis_size)": lambda: bj.Vmap(faff(()), axis_size=2),
+        "Scan": lambda: bj.Scan(stacked(3, (2,))),
+        "Chain": lambda: bj.Chain([faff((2,)), bj.Affine(jnp.zeros(2))]),
+        "Concatenate": lambda: bj.Concatenate([faff((1,)), bj.Affine(jnp.zeros(1))]),
+        "Stack": lambda: bj.Stack([faff(()), bj.Affine(jnp.zeros(()))]),
+        "Partial": lambda: bj.Chain([bj.Partial(faff(()), 0, (2,)), bj.Affine(jnp.zeros(2))]),
+        "Invert": lambda: bj.Chain([bj.Invert(faff((2,))), bj.Affine(jnp.zeros(2))]),
+        "Reshape": lambda: bj.Chain([bj.Reshape(faff((2, 1)), (2,)), bj.Affine(jnp.zeros(2))]),
+        "Invert(Vmap(in_axes))": lambda: bj.Chain([bj.Invert(bj.Vmap(stacked(2, ()), in_axes=eqx.if_array(0))), bj.Affine(jnp.zeros(2))]),
+    }
+    x = jnp.asarray(np.random.default_rng(rng.randrange(2**31)).normal(size=(24, 2)))
+    for name, make in scenarios.items():
+        rep.count(1, ("frozen-inside", name))
+        try:
+            comb = make()
+            x_ = x.reshape((24,) + tuple(comb.shape))
+            model = ds.Transformed(ds.Normal(jnp.zeros(comb.shape), jnp.ones(comb.shape)), comb)
+            before = [np.asarray(l).copy() for l in jax.tree_util.tree_leaves(unwrap(model.bijection)) if eqx.is_inexact_array(l)]
+            out, _ = fit_to_data(jr.PRNGKey(4), model, x_, max_epochs=2, batch_size=8, optimizer=optax.sgd(0.05), show_progress=False, return_best=False)
+            after = [np.asarray(l) for l in jax.tree_util.tree_leaves(unwrap(out.bijection)) if eqx.is_inexact_array(l)]
+            moved_base = not np.array_equal(np.asarray(out.base_dist.loc), np.zeros(comb.shape))
+        except Exception as e:  # noqa: BLE001
+            rep.violation({"frozen inside": name, "error": type(e).__name__}, f"frozen component inside {name}: {type(e).__name__}: {str(e)[:200]}")
+            continue
+        if not moved_base:
+            rep.machinery_failure(f"frozen_inside_combinators: training moved nothing in scenario {name}")
+        marked = [i for i, b in enumerate(before) if b.size and np.all((np.abs(b) >= 2.0) & (np.abs(b) < 8.0)) and np.all(np.abs(b - np.round(b * 128) / 128) == 0)]
+        if not marked:
+            rep.machinery_failure(f"frozen_inside_combinators: no marked leaf found in scenario {name}")
+        bad = [i for i in marked if len(after) != len(before) or not np.array_equal(before[i], after[i])]
+        if bad:
+            rep.violation({"frozen inside": name, "what": "frozen leaf moved"},
+                          f"a component frozen before it was handed to {name} moved during training: {before[bad[0]].ravel()[:4].tolist()} -> {after[bad[0]].ravel()[:4].tolist()}")
+
+
 def frozen_across_runs(rep: Report, rng: random.Random):
     """Frozen stays frozen over a HISTORY of training calls: the model a loop returns is trained again (either loop, either
     order); the leaves frozen at the start are bit-identical at the end and the trainable ones moved in every run."""
@@ -705,6 +762,7 @@ def main():
     frozen_real_flows(rep, rng, 36 if thorough else 12, traces)
     frozen_through_accessors(rep, rng)
     frozen_across_runs(rep, rng)
+    frozen_inside_combinators(rep, rng)
     stats = tracecheck.check(rep, "Trace_Unwrap", "Trace_Unwrap_I.cfg", traces, P_GUARDS, pid=PID,
                              describe=lambda tr: {"tree": tr["cfg"]["term"], "opt": tr["cfg"]["opt"],
                                                   "loop": tr["cfg"]["loop"], "steps": tr["cfg"]["steps"]})
